@@ -8,7 +8,7 @@ from . import shapes as S
 FUNCTIONS = ['<T as ::core::fmt::Debug>::fmt (educe expansion: struct and enum), run through Formatter::new with alternate off and on',
              'Educe__RawString / Educe__DebugField wrapper impls emitted inside fmt']
 STUB = ('<core::str::pattern::CharSearcher as core::str::pattern::Searcher>::next_match', 'crate::support::dbg::next_match_stub')
-LIB_ATTRS = '#![cfg_attr(kani, feature(formatting_options, pattern))]\n#![cfg_attr(stubcheck, feature(pattern))]\n'
+LIB_ATTRS = ''
 
 PRE = '''use crate::support::dbg::*;
 use core::fmt::{self, Debug, Formatter};
